@@ -320,6 +320,13 @@ let run_leaf toks =
       let ops = List.map op ops in
       let rec prefixes acc = function [] -> [] | o :: r -> let a = acc @ [o] in a :: prefixes a r in
       String.concat " " (List.map (fun l -> let (s, c) = vec_run l in pr s ^ "," ^ pr c) (prefixes [] ops))
+  | "pool" :: maxc :: ops ->
+      (* MemoryPool.cpp bookkeeping: ops a0 | a1 (addBucket; the digit = std::align wasted a bucket, used only when it allocates) | f ;
+         prints "nalloc,count,stock,inuse,total,peak" after every operation *)
+      let op t = if t.[0] = 'f' then PFree else PAdd (String.length t > 1 && t.[1] = '1') in
+      let st = ref pool_init in
+      String.concat " " (List.map (fun t -> st := pool_step (z maxc) !st (op t);
+        String.concat "," (List.map pr [ !st.nalloc; !st.count; !st.stock; !st.inuse; !st.total; !st.peak ])) ops)
   | ["is_prime"; x] -> if is_prime (z x) then "1" else "0"
   | ["mr"; x] -> if mr (z x) then "1" else "0"
   | _ -> "?"
